@@ -49,6 +49,8 @@ pub(crate) struct World {
     /// requests the client has sent and the peer has not answered yet
     pub inbox: Vec<(PeerIndex, Sent)>,
     pub last_n: u64,
+    /// violations of the table invariant (Model/MatchedBlocks.v) seen after an operation
+    pub table_problems: Vec<String>,
 }
 
 const INTERVAL: u64 = 10;
@@ -62,7 +64,7 @@ pub(crate) fn build(plan: &Plan) -> World {
     let main = BodyChain::new(&mut rng, flat_plan(8, 8, 5), plan.len + 2, 1 + plan.seed, &mut gen);
     let fork = main.fork(&mut rng, plan.fork_at, plan.len - plan.fork_at + 9, 9_000 + plan.seed, pool.clone(), 2);
     let storage = new_storage("verif-c08");
-    World { net: None, storage, main, fork, pool, on_fork: false, height: 0, peer: PeerIndex::new(1), consensus: dummy_consensus(), inbox: Vec::new(), last_n: plan.last_n }
+    World { net: None, storage, main, fork, pool, on_fork: false, height: 0, peer: PeerIndex::new(1), consensus: dummy_consensus(), inbox: Vec::new(), last_n: plan.last_n, table_problems: Vec::new() }
 }
 
 impl World {
@@ -105,6 +107,11 @@ impl World {
     }
 
     pub(crate) fn exec(&mut self, op: &Op) {
+        self.exec_inner(op);
+        if let Some(net) = self.net.as_ref() { if let Some(p) = super::c06::table_problem(net) { self.table_problems.push(format!("{} (after {})", p, op.name())); } }
+    }
+
+    fn exec_inner(&mut self, op: &Op) {
         if std::env::var("VERIF_DEBUG").is_ok() {
             eprintln!("DBG exec {:?}: min {} records {:?} tip {} inbox {:?}", op, self.storage.get_min_filtered_block_number(),
                 self.net.as_ref().map(|n| matched_records(n).iter().map(|r| (r.0, r.1, r.2.iter().map(|x| (self.main.chain.number_of(&x.0), self.fork.chain.number_of(&x.0), x.1)).collect::<Vec<_>>())).collect::<Vec<_>>()),
@@ -385,6 +392,7 @@ fn judge(w: &mut World, starts: &[(usize, bool, u64)]) -> Snapshot {
             }
         }
     }
+    problems.extend(w.table_problems.iter().cloned());
     let pending = matched_records(&net).len();
     Snapshot { scripts, min_filtered, tip, pending, problems }
 }
